@@ -1,0 +1,24 @@
+//go:build verif
+// +build verif
+
+package isaacstates
+
+// verifGate is called at the gate points of States (states.go): in
+// switchState before the current handler is read ("switch:begin") and between
+// checkStateSwitchContext and exitAndEnter ("switch:checked"), and in the
+// mimic-ballot function after the pool check ("mimic:checked"), after signing
+// ("mimic:signed") and before broadcasting ("mimic:broadcast"). The
+// conformance harness (/verif, properties C08 and C09) installs a function
+// that records the point and, for forced schedules, blocks the calling
+// goroutine until the schedule releases it. No behaviour is added; without
+// the verif build tag the calls are empty.
+var verifGate = func(string, ...interface{}) {}
+
+// VerifSetGate installs (or, with nil, removes) the gate function.
+func VerifSetGate(f func(point string, args ...interface{})) {
+	if f == nil {
+		f = func(string, ...interface{}) {}
+	}
+
+	verifGate = f
+}
